@@ -12,6 +12,7 @@ from .common import EXIT_HARNESS, EXIT_OK, EXIT_VIOLATION
 # property -> (kind, module)
 REGISTRY = {
     "C01": ("A", "vf.harness.C01"),
+    "C02": ("A", "vf.harness.C02"),
     "C03": ("A", "vf.harness.C03"),
     "C04": ("A", "vf.harness.C04"),
     "C05": ("A", "vf.harness.C05"),
